@@ -7,6 +7,8 @@ _cache = {}
 # the message type's own methods are vocabulary the rules speak in (push_front, pop_front, split_off, ...): they stay opaque
 # whatever their visibility; every other crate-private helper is looked through, whatever it is called
 VOCAB_TYPES = ("message::ZmqMessage::",)
+# ... and so are the three operations of the receive queue's state (found by its fields, rules/fq.py), whatever their visibility
+QUEUE_VOCAB = ("insert", "remove", "clear")
 
 
 def default_inline(f, allow_async=False):
@@ -14,6 +16,10 @@ def default_inline(f, allow_async=False):
     called (`get`, `len` .. of a private wrapper type too) - so that extracting or merging a private helper does not move an anchor
     out of sight. Public functions and trait-impl methods (interface points that rules name) stay opaque."""
     from .sym import PURE_NAMES
+    from .rules import fq as _fq
+    qpath = _fq.inner_adt(f)[0]
+    # def path prefix of the queue-state type's inherent methods (`zeromq::fair_queue::QueueInner::<S, K>` prints its generics)
+    qstate = qpath if qpath else None
 
     def pred(fn):
         if not fn.get("local") or fn.get("trait"):
@@ -27,6 +33,8 @@ def default_inline(f, allow_async=False):
             return False
         if any(v in path for v in VOCAB_TYPES):
             return False
+        if qstate is not None and fn["name"] in QUEUE_VOCAB and path.startswith(qstate + "::") and "{" not in path and path.rsplit("::", 1)[-1] == fn["name"]:
+            return False        # the receive queue's own insert / remove / clear: named by the rules whether `pub` or `pub(crate)`
         sig = f.fns.get(path)
         if sig is None or (sig.get("is_async") and not allow_async):
             return False
